@@ -1,7 +1,7 @@
-\* generated by mkbridgeapicfg.sh - C12 exhaustive, L2 lookup focus (quick): 3 L2 bridges (1 on L1), 5 leaves over 4 blocks, 3 verified batches
+\* generated by mkbridgeapicfg.sh - C12 exhaustive, L2 lookup focus with 2 L1 bridges: 3 L2 bridges, 5 leaves over 4 blocks, 3 verified batches (thorough)
 CONSTANTS
   H = 2
-  MaxDeps = 1
+  MaxDeps = 2
   MaxL2 = 3
   MaxInfos = 5
   MaxBlocks = 4
